@@ -148,6 +148,9 @@ proof fn id_det_expand_int(s: int, t: int, a: int, b: int, d: int) by (nonlinear
 proof fn id_det_diag_int(s: int, t: int, a: int, b: int) by (nonlinear_arith)
     ensures 1 * (s * a) + (-(1 * (-(t * b)))) == s * a + t * b {}
 
+#[verifier::external_body] pub proof fn id_neg_zero() ensures rneg(r0()) == r0() {}
+proof fn id_neg_zero_int() ensures -0int == 0int {}
+
 // ---- derived divisibility lemmas (proved from the above) ----
 pub proof fn lemma_dvd_refl(a: int) ensures dvd(a, a) { ax_mul_one(a); assert(a == rmul(r1(), a)); }
 pub proof fn lemma_dvd_zero(d: int) ensures dvd(d, r0()) { id_mul_zero(d); assert(r0() == rmul(r0(), d)); }
